@@ -501,6 +501,21 @@ Definition step_arm (td : todo) (ex1 fl : list pend) (k' : nat) (o : obj) (tc : 
   | _, _, _ => cont td (Some EType)
   end.
 
+(* the body of the work loop after get_next_check has handed out the check (o, tc) *)
+Definition process (o : obj) (tc : chk) (td : todo) (ex fl : list pend) (k' : nat) : stepres * nat :=
+  match resolve tc with
+  | None => (SStop (SpecErr EUnknown), k')
+  | Some c =>
+    if have_examined fl (o, tc) then (SCont td ex fl (Some EValue), k')   (* an alternative that failed before *)
+    else if have_examined ex (o, tc) then (SCont td ex fl None, k')       (* examined: counts as passed *)
+    else
+      let ex1 := (o, tc) :: ex in                                         (* state.examine; result = None *)
+      match r_ty c with
+      | TDisj _ => (SCont (push_disjunct td (o, rep_chk c)) ex1 fl None, k')   (* a named or nested disjunct *)
+      | _ => step_arm td ex1 fl k' o tc c
+      end
+  end.
+
 (* one iteration of the work loop of check_type *)
 Definition step (td : todo) (ex fl : list pend) (err : option tcerr) (k : nat) : stepres * nat :=
   match get_next (S (todo_size td)) (is_some err) td ex fl (S k) with
@@ -510,19 +525,7 @@ Definition step (td : todo) (ex fl : list pend) (err : option tcerr) (k : nat) :
     (SStop (match err with Some e => Reject e | None => Panicked end), k')   (* assert!(result.is_some()) *)
   | Some (GDone, k') =>
     (SStop (match err with None => Accept | Some _ => Panicked end), k')     (* assert!(result.is_none()) *)
-  | Some (GNext (o, tc) td ex fl, k') =>
-    match resolve tc with
-    | None => (SStop (SpecErr EUnknown), k')
-    | Some c =>
-      if have_examined fl (o, tc) then (SCont td ex fl (Some EValue), k')   (* an alternative that failed before *)
-      else if have_examined ex (o, tc) then (SCont td ex fl None, k')       (* examined: counts as passed *)
-      else
-        let ex1 := (o, tc) :: ex in                                         (* state.examine; result = None *)
-        match r_ty c with
-        | TDisj _ => (SCont (push_disjunct td (o, rep_chk c)) ex1 fl None, k')   (* a named or nested disjunct *)
-        | _ => step_arm td ex1 fl k' o tc c
-        end
-    end
+  | Some (GNext (o, tc) td ex fl, k') => process o tc td ex fl k'
   end.
 
 (* the work loop: a single loop over the explicit stack [td] *)
